@@ -119,3 +119,47 @@ def enum_same_name_conflict(first: int, second: int, literal: bool) -> bool:
     if same:
         return not isinstance(p2, PropertyError) and p2.class_info == p1.class_info
     return isinstance(p2, PropertyError) and schemas2.classes_by_name[p1.class_info.name] is p1
+
+
+# ------------------------------------------------------------------------------------------------ class name already taken
+from openapi_python_client.parser.properties import ModelProperty  # noqa: E402
+
+_OBJ = oai.Schema.model_validate({"type": "object", "properties": {"x": {"type": "integer"}}})
+
+
+def _taken_by_model(cfg):
+    m, s = ModelProperty.build(data=_OBJ, name="OrderStatus", schemas=Schemas(), required=True, parent_name=None, config=cfg, process_properties=False, roots={"r"})
+    assert isinstance(m, ModelProperty)
+    return s
+
+
+_S_MODEL = {False: _taken_by_model(CFG), True: _taken_by_model(CFG_LIT)}
+
+
+def enum_name_taken(literal: bool, taken_by: int, req1: bool, req2: bool, with_default: bool) -> bool:
+    """
+    Building an inline enum whose class name is already registered never raises: a class of another kind (a model, an
+    enum of the other style) is a diagnostic; the same enum (same values) is shared, and the second property keeps its
+    *own* name, requiredness and default.
+    pre: 0 <= taken_by < 3
+    post: _
+    """
+    cls, other = (LiteralEnumProperty, EnumProperty) if literal else (EnumProperty, LiteralEnumProperty)
+    cfg = CFG_LIT if literal else CFG
+    vals = ["on", "off"]
+    if taken_by == 0:
+        schemas = _S_MODEL[True if literal else False]
+    elif taken_by == 1:
+        p0, schemas = other.build(data=_schema(vals), name="status", required=True if req1 else False, schemas=Schemas(), parent_name="Order", config=cfg)
+        if isinstance(p0, PropertyError):
+            return False
+    else:
+        p0, schemas = cls.build(data=_schema(vals), name="status", required=True if req1 else False, schemas=Schemas(), parent_name="Order", config=cfg)
+        if isinstance(p0, PropertyError):
+            return False
+    p, _ = cls.build(data=_schema(vals, default="off" if with_default else None), name="status", required=True if req2 else False, schemas=schemas, parent_name="Order", config=cfg)
+    if taken_by < 2:
+        return isinstance(p, PropertyError)
+    if isinstance(p, PropertyError):
+        return False
+    return p.required == (True if req2 else False) and p.name == "status" and (p.default is not None) == (True if with_default else False) and p.class_info == p0.class_info
